@@ -64,5 +64,6 @@ fn main() {
         "C12" => c12,
         "C16" => c16,
         "C17" => c17,
+        "C18" => c18,
     );
 }
